@@ -50,6 +50,9 @@ def _shared_mutables(fn):
     def mutable(e):
         return _is_mutable_ctor(e) or (isinstance(e, ast.Name) and len(local.get(e.id, ())) == 1)
     for n in walk_local(fn):
+        if isinstance(n, ast.Assign) and len(n.targets) >= 2 and mutable(n.value) \
+                and sum(isinstance(t, (ast.Subscript, ast.Attribute)) for t in n.targets) >= 2:
+            out.append((n, 'chained assignment of one mutable object to several keys'))
         if isinstance(n, ast.Call) and (dotted(n.func) or '').endswith('fromkeys') and len(n.args) == 2 and mutable(n.args[1]):
             if not (isinstance(n.args[0], (ast.List, ast.Tuple)) and len(n.args[0].elts) < 2):
                 out.append((n, 'dict.fromkeys with a mutable value'))
@@ -91,6 +94,13 @@ def run(model, rep, tier):
     ok = list(gen) == list(taglist)
     rep.ob('tag-type-tables', mod, gt, 'generatetags writes %s ; __taglist__ = %s' % (list(gen), list(taglist)), ok,
            '' if ok else 'tag types differ between generator and class table', engine='tables')
+    # one array object handed to several keys (dict.fromkeys(keys, array), [array] * n): data written for one species land in
+    # the other's array as well
+    shared = _shared_mutables(t2p)
+    for node, what in shared:
+        rep.ob('neutral-defaults', mod, node, 'tags2preene: %s' % unparse(node)[:70], False,
+               '%s: every key / position refers to the same array object, so the prefactors and energies written for one kind of '
+               'state overwrite those of another' % what, engine='alias', qual='VacancyMediated.tags2preene')
     # rows of tags2preene
     rows = []
     row_loops = []
@@ -109,13 +119,6 @@ def run(model, rep, tier):
     for n in walk_local(t2p):
         if isinstance(n, ast.Assign) and unparse(n.targets[0]) == 'thermodict' and isinstance(n.value, ast.Dict):
             td = n
-    # one array object handed to several keys (dict.fromkeys(keys, array), [array] * n): data written for one species land in
-    # the other's array as well
-    shared = _shared_mutables(t2p)
-    for node, what in shared:
-        rep.ob('neutral-defaults', mod, node, 'tags2preene: %s' % unparse(node)[:70], False,
-               '%s: every key / position refers to the same array object, so the prefactors and energies written for one kind of '
-               'state overwrite those of another' % what, engine='alias', qual='VacancyMediated.tags2preene')
     if td is None:
         rep.undecided('tags2preene: thermodict is not built as a literal; its default arrays were not located')
         return
